@@ -106,7 +106,8 @@ def pgen_programs(tier, seed):
     out = []
     for k in range(n):
         ast = seed * 100000 + k
-        P = pgen.generate(ast, fuel=4 + k % 3, lin=(k % 6 == 5))
+        shape = "dropserver" if k % 5 == 4 else "random"
+        P = pgen.generate(ast, fuel=4 + k % 3, lin=(k % 6 == 5), shape=shape)
         variants = [("unique", None, "plain"), ("local", None, "plain"), ("reuse", None, "plain"), ("clash", None, "plain"), ("reuse", ast + 7, "plain")]
         if k % 3 == 0:
             variants += [("reuse", None, "ren"), ("local", ast + 9, "cross")]
@@ -115,7 +116,7 @@ def pgen_programs(tier, seed):
                         "text": pgen.render(P, sch, seed=ast, order=order, ids=ids), "src": "pgen", "wide": True, "ast": ast, "scheme": sch, "ids": ids})
         if k % 4 == 0:
             # an ill-typed tree (one elimination removed) under every naming: the verdict must not depend on the spelling
-            Q = pgen.generate(ast, fuel=4 + k % 3, lin=(k % 6 == 5))
+            Q = pgen.generate(ast, fuel=4 + k % 3, lin=(k % 6 == 5), shape=shape)
             what = pgen.mutate(Q, ast)
             if what:
                 for sch, order, ids in [("unique", None, "plain"), ("local", None, "plain"), ("reuse", None, "plain"), ("clash", ast + 3, "plain"), ("reuse", None, "cross")]:
